@@ -25,7 +25,7 @@ from .common import (ROOT, CORPUS, coq_Z, coq_bool, coq_list, coq_nat, coq_opt,
                      coq_string, parse_eval_lists, shards)
 
 PID = "C14"
-SHARD = 400
+SHARD = 100
 
 # ---------------------------------------------------------------------------
 # generator
@@ -892,23 +892,25 @@ def oracle_lifecycle(obs, modes):
             return modes[name]
         return None
 
-    # expected shape: per period E, I*n, D
-    exp = []        # (code, ident, period index)
+    # expected shape: per period E, I*n, D (with the elapsed time of every iteration)
+    exp = []        # (code, ident, period index, expected elapsed us)
     cur = None
+    t_start = 0
     exited = False
     per = 0
     for o in mops:
         if o[0] == "start":
             per += 1
             cur = chosen(o[1], o[2])
+            t_start = o[3]
             if cur:
-                exp.append((0, cur, per))
+                exp.append((0, cur, per, 0))
         elif o[0] == "periodic":
             if cur:
-                exp.append((1, cur, per))
+                exp.append((1, cur, per, o[1] - t_start))
         elif o[0] == "disable":
             if cur:
-                exp.append((2, cur, per))
+                exp.append((2, cur, per, 0))
             cur = None
         elif o[0] == "end":
             exited = True
@@ -916,15 +918,15 @@ def oracle_lifecycle(obs, modes):
             per += 1
             m = chosen(o[1], o[2])
             if m:
-                exp.append((0, m, per))
+                exp.append((0, m, per, 0))
                 if not exited:
                     for w, en in o[4]:
                         if not en:
                             break
-                        exp.append((1, m, per))
-                exp.append((2, m, per))
+                        exp.append((1, m, per, w - o[3]))
+                exp.append((2, m, per, 0))
     got = [(k, i) for k, i, t in obs["events"]]
-    want = [(k, i) for k, i, p in exp]
+    want = [(k, i) for k, i, p, _ in exp]
     if got != want:
         # name the clause
         n = 0
@@ -939,12 +941,15 @@ def oracle_lifecycle(obs, modes):
             fp = "lifecycle:wrong-mode"
         v.append((fp, "callback %d is %s, the property requires %s" % (n, g, w)))
         return v
-    # elapsed time non-decreasing and >= 0 inside a period
+    # elapsed time: non-decreasing and >= 0 inside a period, and it is the time since the period began
     last = {}
-    for (k, i, t), (_, _, p) in zip(obs["events"], exp):
+    for (k, i, t), (_, _, p, te) in zip(obs["events"], exp):
         if k == 1:
             if t < 0 or (p in last and t < last[p]):
                 v.append(("lifecycle:time-decreases", "on_iteration elapsed time %d us after %s us in one period" % (t, last.get(p))))
+                break
+            if abs(t - te) > 2:
+                v.append(("lifecycle:not-elapsed-time", "on_iteration got t=%d us, %d us have elapsed since the period began" % (t, te)))
                 break
             last[p] = t
     return v
